@@ -1314,6 +1314,7 @@ func runC01(r *Run, rng *Rng, replay string) {
 	c01putsPhase(r, rng, nCols/3)
 	c01colseqPhase(r, rng, nCols/3)
 	c01rowseqPhase(r, rng, nCols/4)
+	c01sstseqPhase(r, rng, nCols/5)
 	lap("witnesses+attribute histories+cols")
 	// 1. fixed boundary payloads through every string op
 	for i, s := range c01fixedPayloads() {
